@@ -139,13 +139,8 @@ def retsLine (s : S) (rets : List Nat) : String :=
   let sorted := sortNats (pairs.map fun p => p.1)   -- ids are distinct slots, so sorting by id sorts the pairs
   ",".intercalate (sorted.map fun id => s!"{id}:{idxOf s.polls id}")
 
-/-- pollers leaked by a failed grow never appear in a slice, so the harness cannot name them: after an
-injected `openPoll` failure only members of the slice are listed (the census `live=` still counts all) -/
-def aliveShown (s : S) : List Nat :=
-  if s.fails > 0 then s.alive.filter (s.polls.contains ·) else s.alive
-
 def endLine (s : S) (panics : Nat) (rets : List Nat) : String :=
-  s!"end panics={panics} rets={retsLine s rets} alive={joinNats (sortNats (aliveShown s))} ## {dump s}"
+  s!"end panics={panics} rets={retsLine s rets} alive={joinNats (sortNats s.alive)} ## {dump s}"
 
 def refuse : M String := do
   modify fun w => { w with dead := true }
@@ -276,6 +271,8 @@ def parsePairs (s : String) : List (Nat × Int) :=
     | _ => (0, -1)
 
 structure SW where
+  inL : Bool := false          -- a manager exists: the clause "no poller is left behind" applies (it has no other precondition)
+  parked : Bool := false       -- some goroutine is still inside Pick (parked at a schedule point) after the last step
   inC : Bool := false          -- the scenario so far is inside the contract
   hist : List Nat := []        -- slot indices of consecutive sequential round-robin picks since the last reconfiguration
   cfg : Option Nat := none     -- the loop count configured last while no Pick was in flight (newManager / a successful SetNumLoops)
@@ -310,8 +307,27 @@ def specLine (op impl : String) : StateM SW String := do
     | ["new", n] => some (toNat! n)
     | ["setn", n] => if inPhase then none else if etoks == ["ok"] then some (toNat! n) else w.cfg
     | _ => w.cfg
-  let w := { w with cfg := cfg, inPhase := inPhase }
+  let inL := match otoks with
+    | ["scn", _] => false
+    | ["new", _] => true
+    | _ => w.inL
+  let parked := match otoks with
+    | "step" :: _ | "spawn" :: _ => (getField etoks "pcs=").getD "" != ""
+    | _ => w.parked
+  let w := { w with cfg := cfg, inPhase := inPhase, inL := inL, parked := parked }
   set { w with inC := inC, hist := hist }
+  -- "no poller is left behind" (Obs.noStray, theorem C18_none_left_behind): whenever nobody is inside Pick, inside
+  -- the contract or not – in particular after an injected openPoll failure (the failing Run must have closed the
+  -- pollers it had opened, fix of F2) and after manager.Close
+  let calm := match otoks with
+    | "step" :: _ | "spawn" :: _ | ["scn", _] => false
+    | "endphase" :: _ => !parked
+    | _ => true
+  let stray := inL && calm && ev != "hang" && ev != "livelock" && ev != "toolong" && ev != "dead" &&
+    (match parseObs d with
+     | some o => !o.noStray
+     | none => false)
+  if stray then return "IMPL-SPEC-FAIL poller left behind (open pollers are not exactly the slice): " ++ d else
   if !inC then return "X" else
   if ev == "hang" || ev == "livelock" || ev == "toolong" then return "IMPL-SPEC-FAIL " ++ ev else
   match parseObs d with
